@@ -176,3 +176,27 @@ fn c18_slit_oversize_locality_count_refused() {
         panic!("SLIT::new(65536 localities) returned a {}-byte image declaring {} localities and Length {}", b.len(), u64::from_le_bytes(b[36..44].try_into().unwrap()), le32_at(&b, 4));
     }
 }
+
+// ---- RHCT (C18 / C03 / C05)
+#[test]
+fn c18_rhct_oversize_nodes_refused() {
+    use acpi_tables::rhct::*;
+    // ISA string whose node length (8 + n + 1 + pad) exceeds the 16-bit length field
+    let s: &'static str = Box::leak("x".repeat(65530).into_boxed_str());
+    let r = refuses(|| ser(&IsaStringNode::new(s)));
+    if let Err(b) = r {
+        panic!("ISA string node of {} bytes returned with length field {}", b.len(), le16_at(&b, 2));
+    }
+    // hart info node with too many offsets for its 16-bit length field
+    let mut t = RHCT::new(*b"FOOBAR", *b"DECAFCOF", 1, 1000);
+    let isa = t.add_isa_string("rv64");
+    let cmo = t.add_cmo(CmoNode::new(6, 6, 6));
+    let mut hi = HartInfoNode::new(0, &isa);
+    for _ in 0..16382 {
+        hi = hi.with_cmo(&cmo);
+    }
+    let r = refuses(|| ser(&hi));
+    if let Err(b) = r {
+        panic!("hart info node of {} bytes returned with length field {}", b.len(), le16_at(&b, 2));
+    }
+}
